@@ -35,6 +35,12 @@ def run(ctx):
     ctx.need(len(rr) == 1 and rr[0].state, 'ready_for_response site')
     D = q.state_of(rr[0])
     role = lambda s: {R: 'report-state', D: 'delay-state', init: 'init'}.get(s, 'state#%d' % fsm.states.index(s))
+    # the idle state arms on the LEVEL of rx_active: whenever a packet is in progress it must leave, whatever else holds --
+    # the receiver may reach idle after rx_active rose (it sits in the inter-packet delay state for up to 80 cycles), so an
+    # edge-triggered arm misses the whole packet
+    oi = state_outcomes(fsm, init, {RXA: True})
+    ctx.ob('C02.idle-arms-on-level', 'USBDataPacketReceiver.init.leave', None not in oi and init not in oi and len(oi) == 1, fsm.state_loc[init],
+           'with rx_active high the initial state must always move on to the PID state: outcomes %s' % sorted(map(str, oi)))
     # (a)
     for s in fsm.states:
         if s in (init, D):
